@@ -56,7 +56,7 @@ def c14_oracle(case, obs):
                 out.append(("message %d for h%d arrived at h%d" % (i, m["dst"], h), None))
             measured = el - m["step"] * tick     # sender's clock at the send is step*tick
             lo, hi = m["lo"], m["hi"]
-            if lo <= hi and not (lo - tick <= measured < hi + tick):
+            if lo <= hi and not (lo - tick <= measured <= hi + tick):
                 out.append(("message %d (h%d->h%d) sent at step %d: measured latency %d ns outside [%d - tick, %d + tick], tick %d" % (i, m["src"], m["dst"], m["step"], measured, lo, hi, tick), None))
     for i, m in sent.items():
         if i not in recv_pos and m["delay"] is not None:
